@@ -38,7 +38,7 @@ def units(tier):
         SL("slice.crash_holding_mgmt_lock", "x11_crash_holding_mgmt_lock", 50),
         SL("slice.crash_after_respawn_1of2", "x10_crash_after_respawn", 60, params={"live0": 1}),
         H("C02", "lokyverif.harness.c02_broken", "check_run_loop", t, ["loky.process_executor:_ExecutorManagerThread.run"],
-          "1..4 turns of the manager loop, each a wake-up / a result / a broken pool; shutdown flag raised at turn 0..4; work left or not after each turn"),
+          "1..3 turns of the manager loop, each a wake-up / a result / a broken pool; shutdown flag raised at turn 0..3; work left or not after each turn"),
         H("C02", M, "check_wait_table", t, [PE + "wait_result_broken_or_wakeup", "loky.backend.utils:get_exitcodes_terminated_worker", "loky.backend.utils:_format_exitcodes"],
           "1..2 workers, readiness subset symbolic, item kind in {result, pid, remote traceback, garbled}, exit code -15..3"),
         H("C02", M, "check_exitcode_names", t, ["loky.backend.utils:_format_exitcodes", "loky.backend.utils:_get_exitcode_name"], "exit codes -64..255"),
